@@ -15,7 +15,7 @@ from vv.verdict import Report
 RULE_OWNER = {
     'tree_shape': ['C09'], 'tree_x': ['C09'], 'origin': ['C09'], 'not_rejected': ['C09'],
     'tree_cnt': ['C10'], 'book': ['C10'], 'published': ['C10'], 'hier': ['C10'],
-    'invoked': ['C10'], 'exception': ['C10'],
+    'invoked': ['C10'], 'exception': ['C10', 'C09'],
     'view': ['C07'],
 }
 
@@ -139,9 +139,14 @@ def validate(rep, prop, hists, scratch, label='store'):
         owners = set()
         for r in rules:
             owners.update(RULE_OWNER.get(r, []))
-        # an exception together with a wrong tree is a C09 matter
-        if 'exception' in rules and rules & {'tree_shape'}:
+        # an exception out of update(): the operations were not all carried out
+        # (C09) and the engine no longer runs the hierarchy (C10); when it comes
+        # from rebuilding the views it is C07's
+        if 'exception' in rules:
             owners.add('C09')
+            rec0 = traces[t][stuck - 1] if 0 < stuck <= len(traces[t]) else {}
+            if 'not a valid path' in rec0.get('exc_text', '') or 'topology_view' in rec0.get('exc_text', ''):
+                owners.add('C07')
         if prop in owners:
             ini, ops = hists[t]
             rec = traces[t][stuck - 1] if 0 < stuck <= len(traces[t]) else {}
